@@ -161,7 +161,7 @@ func vfC05Exec(v *vfT, c vfC05Case) *vfC05Result {
 	}
 	// quiescence: everything released, blocked callers must return
 	gates.OpenAll()
-	ok, dump := vfWaitActors(actors, 3*time.Second)
+	ok, dump := vfWaitActors(actors, 20*time.Second)
 	vfSettle(gates, actors)
 	// items enqueued after GracefulClose returned must never run
 	closeRet := false
@@ -181,10 +181,20 @@ func vfC05Exec(v *vfT, c vfC05Case) *vfC05Result {
 		}
 		time.Sleep(2 * vfSettleInterval)
 	}
+	// the worker is not one of the harness's actors: wait until it has drained the queue and exited
+	// (under load it may simply not have reached its next yield point within the settle interval)
+	vfPairWaitC05(10*time.Second, func() bool {
+		ops.mu.Lock()
+		defer ops.mu.Unlock()
+		return ops.busyCh == nil
+	})
 	ops.mu.Lock()
 	stranded := ops.ops.Len()
 	worker := ops.busyCh != nil
 	ops.mu.Unlock()
+	if worker {
+		v.Violation("C05/worker-stuck", "the queue worker is still alive 10s after every gate was opened (queue length %d); trace %v\n%s", stranded, res.trace, vfPionStacks())
+	}
 
 	evMu.Lock()
 	events := append([]vfC05Event{}, res.events...)
@@ -301,6 +311,19 @@ func vfC05Exec(v *vfT, c vfC05Case) *vfC05Result {
 		v.Label("gates-not-reached")
 	}
 	return res
+}
+
+func vfPairWaitC05(timeout time.Duration, cond func() bool) bool {
+	deadline := time.Now().Add(timeout)
+	for {
+		if cond() {
+			return true
+		}
+		if time.Now().After(deadline) {
+			return false
+		}
+		time.Sleep(100 * time.Microsecond)
+	}
 }
 
 func vfC05Running(a *vfActors, prefix string) bool {
